@@ -168,6 +168,19 @@ def run(rep, tier, seed, replay, unordered=UNORDERED, pid=PID):
             qs = [b".".join([b"s"] * n), b".".join([b"s"] * (n - 1) + [b"x"]), b".".join([b"x"] + [b"s"] * (n - 1)), b".".join([b"s"] * (n // 2) + [b"x"] + [b"s"] * (n - n // 2 - 1))]
             scases.append(GM.case_line("none", 0, [GM.load_op(cfg)] + [GM.query_op(t, q) for q in qs for t in ("counter", "gauge")]))
             smeta.append("a staircase of %d rules" % (n + 1))
+    # a dense tree: every literal / wildcard combination over one name (2^d rules), preceded by a rule that starts with a
+    # wildcard - the search has to come back from more than a thousand branches before it may answer
+    for dpt in ((4, 10) if tier == "quick" else (4, 10, 11)):
+        import itertools as _it
+        tree = [GM.rule(b".".join([b"*"] + [b"a"] * dpt), b"first_$1", help=b"r0", labels=[(b"c1", b"$1")])]
+        for k, combo in enumerate(_it.product([b"a", b"*"], repeat=dpt)):
+            tree.append(GM.rule(b".".join((b"a",) + combo), b"tree_%d" % k, help=b"r%d" % (k + 1)))
+        tail = [GM.rule(b".".join([b"a"] * (dpt + 1) + [b"b"]), b"longer", help=b"r%d" % (len(tree)))]
+        for rules in (tree, tree + tail, [tree[0]] + tree[:0:-1]):
+            cfg = (GM.defaults(disable_ordering=True) if unordered else None, [dict(r) for r in rules])
+            qs = [b".".join([b"a"] * (dpt + 1)), b".".join([b"a"] * dpt + [b"z"]), b".".join([b"z"] + [b"a"] * dpt), b".".join([b"a", b"z"] * ((dpt + 1) // 2) + [b"a"] * ((dpt + 1) % 2))]
+            scases.append(GM.case_line("none", 0, [GM.load_op(cfg)] + [GM.query_op(t, q) for q in qs for t in ("counter", "gauge")]))
+            smeta.append("a dense tree of %d rules" % len(rules))
     many = [GM.rule(b"m%d.*" % k, b"many_%d_$1" % k, help=b"r%d" % k) for k in range(300)]
     scases.append(GM.case_line("lru", 50, [GM.load_op((GM.defaults(disable_ordering=True) if unordered else None, many))] +
                                [GM.query_op("counter", b"m%d.x%d" % (k, k)) for k in list(range(0, 300, 7)) * 2] + [GM.query_op("gauge", b"m300.x")]))
@@ -217,6 +230,10 @@ def run(rep, tier, seed, replay, unordered=UNORDERED, pid=PID):
                 rep.violation("inserting a non-matching rule changes the outcome",
                               dict(rules=[[p.decode(), (t or b"").decode()] for p, t in sl], inserted_at=pos,
                                    rules_after=[[p.decode(), (t or b"").decode()] for p, t in sl2], name=n.decode(), type=ty, before=a, after=b))
+    if not replay:
+        # the same rule semantics after long uptime: tens of thousands of reloads in one process, answers cached long ago
+        import genproof
+        genproof.reload_count(rep, pid, tier, unordered=unordered, caches=("lru",))
     rep.extra["disagreements_with_model"] = nbad
     rep.sample(dict(case=cases[len(cases) // 2][:300], impl=impl[len(cases) // 2], model=model[len(cases) // 2]))
     rep.sample(dict(yaml=GM.to_yaml(rmeta[0][0]), queries=[[t, n.decode("latin1")] for t, n in rmeta[0][1][:4]], impl=rimpl[0][:5]))
